@@ -31,6 +31,7 @@ type Profile struct {
 	PeerPc    int  // percentage of registrations for an imported catalog
 	Gateways  bool // gateway kinds and gateway config entries
 	KindFlips int  // percentage of service registrations that re-use an instance id with another kind / name
+	TgwVips   bool // the monitor-only family: terminating-gateway virtual IPs (both flags on, the gateway and its links favoured)
 }
 
 var kindOrder = []string{"reg", "dereg", "coord", "sysmeta", "cfgset", "cfgdel", "xtxn", "sc", "sd"}
@@ -156,7 +157,11 @@ func (g *Gen) svcArg(node, peer string) *SvcArg {
 	if r.Chance(25) {
 		s.ID = lname + "2"
 	}
-	switch k := r.Intn(100); {
+	k := r.Intn(100)
+	if g.P.TgwVips && k < 85 && r.Chance(25) {
+		k = 90 // more gateway instances in the terminating-gateway family
+	}
+	switch {
 	case k < 40: // typical
 	case k < 55: // connect-native
 		s.Native = true
@@ -174,6 +179,9 @@ func (g *Gen) svcArg(node, peer string) *SvcArg {
 	default:
 		if g.P.Gateways && peer == "" {
 			s.Kind = hx.Pick(r, []string{"ingress-gateway", "terminating-gateway", "mesh-gateway", "api-gateway"})
+			if g.P.TgwVips && r.Chance(85) {
+				s.Kind = "terminating-gateway"
+			}
 			s.Name = map[string]string{"ingress-gateway": "ingress-gw", "terminating-gateway": "term-gw", "mesh-gateway": "mesh-gw", "api-gateway": "api-gw"}[s.Kind]
 			s.ID = s.Name
 		} else if r.Chance(30) {
@@ -287,6 +295,15 @@ func (g *Gen) sysmetaOp() *Op {
 
 func (g *Gen) cfgArg() *CfgArg {
 	r := g.R
+	if g.P.TgwVips {
+		switch n := r.Intn(10); {
+		case n < 2:
+			return &CfgArg{Kind: structs.ServiceDefaults, Name: g.serviceName(), Tok: hx.Pick(r, []string{"tcp", "tcp", "dest"})}
+		case n < 5:
+			return &CfgArg{Kind: structs.ServiceResolver, Name: g.serviceName(), Tok: hx.Pick(r, []string{"", "timeout"})}
+		}
+		return &CfgArg{Kind: structs.TerminatingGateway, Name: "term-gw", Tok: hx.Pick(r, []string{"web", "db", "db", "db+api", "web+db", "web+*", "*", ""})}
+	}
 	switch n := r.Intn(10); {
 	case n < 4:
 		return &CfgArg{Kind: structs.ServiceDefaults, Name: g.serviceName(), Tok: hx.Pick(r, []string{"tcp", "tcp", "dest"})}
@@ -419,6 +436,9 @@ func (g *Gen) Preamble() []*Op {
 	var ops []*Op
 	if g.R.Chance(g.P.VipPc) {
 		ops = append(ops, &Op{Kind: "sysmeta", Key: structs.SystemMetadataVirtualIPsEnabled, Val: "true", Idx: g.nextIdx(), ViaFSM: g.R.Bool()})
+	}
+	if g.P.TgwVips {
+		ops = append(ops, &Op{Kind: "sysmeta", Key: structs.SystemMetadataTermGatewayVirtualIPsEnabled, Val: "true", Idx: g.nextIdx(), ViaFSM: g.R.Bool()})
 	}
 	return ops
 }
